@@ -346,6 +346,53 @@ func GenC12(rng *rand.Rand, thorough bool, emit func(*Sx)) {
 	}
 }
 
+// genC09AfterErrors: a malformed / cancelled / failed exchange as the 4th "irregular" event of a
+// connection: it is not a protocol error, the connection stays open and in command mode.
+func genC09AfterErrors(rng *rand.Rand, emit func(*Sx)) {
+	for _, kind := range []string{"bad-initial", "bad-later", "star", "mech-error", "smtp-error", "unknown-mech"} {
+		for _, implicit := range []bool{false, true} {
+			cfg := DefaultCfg()
+			cfg.HasAuth, cfg.Auth = true, []string{"PLAIN"}
+			if implicit {
+				cfg.ImplicitTLS = true
+			} else {
+				cfg.Insecure = true
+			}
+			f := newF(cfg)
+			f.hello()
+			f.cmd("XXXX", 500)
+			f.cmd("X", 501)
+			f.cmd("", 500)
+			switch kind {
+			case "bad-initial":
+				f.cmd("AUTH PLAIN !!!", 454)
+			case "bad-later":
+				f.script.Auth = []AuthPlan{{Start: BNil, Steps: []SaslStep{{Challenge: []byte("c")}, {Done: true}}}}
+				f.cmd("AUTH PLAIN", 334)
+				f.cmd("%%%", 454)
+			case "star":
+				f.script.Auth = []AuthPlan{{Start: BNil, Steps: []SaslStep{{Challenge: []byte("c")}, {Done: true}}}}
+				f.cmd("AUTH PLAIN", 334)
+				f.cmd("*", 501)
+			case "mech-error":
+				f.script.Auth = []AuthPlan{{Start: BNil, Steps: []SaslStep{{Err: BPlain("bad credentials")}}}}
+				f.cmd("AUTH PLAIN AGEAYg==", 454)
+			case "smtp-error":
+				f.script.Auth = []AuthPlan{{Start: BNil, Steps: []SaslStep{{Err: BSmtp(535, [3]int{5, 7, 8}, "Authentication failed")}}}}
+				f.cmd("AUTH PLAIN AGEAYg==", 535)
+			case "unknown-mech":
+				f.script.Auth = []AuthPlan{{Start: BSmtp(504, [3]int{5, 7, 4}, "Unsupported authentication mechanism")}}
+				f.cmd("AUTH NOPE", 504)
+			}
+			f.cmd("NOOP", 250)
+			f.cmd("MAIL FROM:<s@ok>", 250)
+			f.cmd("QUIT", 221)
+			f.add(L(A("must-mail"), XS("s@ok")))
+			emit(RunConv(f.caseOf("C09", segStream(rng, f.out, nil, 1, rawEOF))))
+		}
+	}
+}
+
 // GenC09: AUTH exchanges against the real server: 1..3-step scripted SASL servers x what the client
 // sends at each step (initial response, '=', nothing, bad base64, '*', arbitrary octets) x where the
 // connection is allowed to authenticate (insecure auth allowed on plaintext, implicit TLS, or not).
@@ -358,6 +405,7 @@ func GenC09(rng *rand.Rand, thorough bool, emit func(*Sx)) {
 	initial := []cstep{{"", "ok"}, {"=", "ok"}, {b64([]byte("\x00user\x00pass")), "ok"}, {"!!!notbase64", "bad"}, {b64([]byte{0, 255, 13, 10}), "ok"}}
 	later := []cstep{{b64([]byte("resp")), "ok"}, {"=", "ok"}, {"", "ok"}, {"*", "star"}, {"%%%", "bad"}, {b64([]byte{0x80, 0, 0xff}), "ok"}}
 	chals := [][]byte{nil, []byte("challenge"), {0, 255, 10, 13}, []byte("a")}
+	genC09AfterErrors(rng, emit)
 	n := 0
 	for mode := 0; mode < 3; mode++ { // 0 plaintext+insecure, 1 implicit TLS, 2 plaintext without insecure
 		for nsteps := 0; nsteps <= 3; nsteps++ {
